@@ -2,6 +2,7 @@ package sim
 
 import (
 	"bytes"
+	"sort"
 
 	"go.sia.tech/core/consensus"
 	"go.sia.tech/core/types"
@@ -717,6 +718,59 @@ func (a *Adv) AuthProbes(perTxn int) int {
 			x.ArbitraryData = append(x.ArbitraryData, buf.Bytes())
 			SignV1(a.CS, x, false)
 			if a.emit(blk, "v1/foundation/unauthorized-address-change", "reject", nil, nil) {
+				n++
+			}
+			break
+		}
+	}
+	// v1 Foundation update appended to a transaction whose Foundation-controlled input is only partially
+	// signed: the partial signatures stay valid (they do not cover the added arbitrary data), so nothing but
+	// the whole-transaction-signature requirement of the Foundation rule stands between a relayer and the
+	// subsidy addresses. Control: the same transaction signed whole-transaction by the same keys (accepted).
+	if a.v1Allowed() && a.Child >= a.G.C.Net.HardforkFoundation.Height {
+		used := map[types.SiacoinOutputID]bool{}
+		for _, t := range a.Honest.Transactions {
+			for _, in := range t.SiacoinInputs {
+				used[in.ParentID] = true
+			}
+		}
+		for _, t := range a.Honest.V2Transactions() {
+			for _, in := range t.SiacoinInputs {
+				used[in.Parent.ID] = true
+			}
+		}
+		var ids []types.SiacoinOutputID
+		for id, e := range a.G.C.Store.SC {
+			if ad := e.SiacoinOutput.Address; (ad == a.CS.FoundationSubsidyAddress || ad == a.CS.FoundationManagementAddress) && !used[id] && e.MaturityHeight <= a.Child {
+				ids = append(ids, id)
+			}
+		}
+		sort.Slice(ids, func(i, j int) bool { return bytes.Compare(ids[i][:], ids[j][:]) < 0 })
+		for _, id := range ids {
+			e := a.G.C.Store.SC[id]
+			lock, known := a.G.W.Locks[e.SiacoinOutput.Address]
+			if !known || lock.UC == nil || len(lock.UC.PublicKeys) == 0 || lock.UC.SignaturesRequired == 0 {
+				continue
+			}
+			txn, ok := a.payV1(id, e.SiacoinOutput.Value, lock)
+			if !ok || v1UsesUnknownAlgo(txn) {
+				continue
+			}
+			SignV1(a.CS, &txn, true) // partial coverage of everything present now
+			var buf bytes.Buffer
+			enc := types.NewEncoder(&buf)
+			types.SpecifierFoundation.EncodeTo(enc)
+			types.FoundationAddressUpdate{NewPrimary: MakeLock(LockSpec{Kind: 0, K1: 1}).Address(), NewFailsafe: MakeLock(LockSpec{Kind: 0, K1: 2}).Address()}.EncodeTo(enc)
+			enc.Flush()
+			txn.ArbitraryData = append(txn.ArbitraryData, buf.Bytes()) // added by a relayer, signatures untouched
+			ctl := CloneV1(txn)
+			ctl.Signatures = nil
+			SignV1(a.CS, &ctl, false)
+			// the v1 part of a block precedes its v2 part, so the extra transaction goes at the end of the v1 list
+			tb, cb := CloneBlock(a.Honest), CloneBlock(a.Honest)
+			tb.Transactions = append(tb.Transactions, txn)
+			cb.Transactions = append(cb.Transactions, ctl)
+			if a.emitPair(tb, cb, "v1/foundation/update-appended-under-partial-signatures", nil) {
 				n++
 			}
 			break
